@@ -43,7 +43,7 @@ void mpz_nextprime(mpz_ptr x, mpz_srcptr y)
   {
      while (!mpz_miller_rabin (x, 23, rnd)) /* we've done 2 rounds already, do another 23 */
      {
-        mpz_add_ui(x, x, 2);
+        /* next_prime_candidate returns a candidate strictly above its argument */
         mpz_next_prime_candidate(x, x, rnd);
      }
   }
